@@ -299,8 +299,11 @@ def r11_7(ctx: Ctx, rule: str = "R11.7") -> None:
         asks = any(isinstance(cd, ast.Call) and attr_tail(cd) == "needs_password" and pol for cd, pol in facts) and \
             any((nt := q.is_none_test(cd)) is not None and "password" in norm(nt[0]) and nt[1] == pol for cd, pol in facts)
         rn = q.node_for(ex, r)
+        # nothing that touches the file system lies before it: the worker call and the directory pre-pass (mkdir of member directories);
+        # the destination directory itself and the pure bookkeeping of the member loop may precede it
+        dest_mk = [c for c in q.calls(ex) if attr_tail(c) == "mkdir" and not q.enclosing_loops(ex, c)]
         before_all = all(not cfg.reaches(q.node_for(ex, w), rn) for w in wcalls) and all(
-            not cfg.reaches(q.node_for(ex, c), rn) for c in q.calls(ex) if attr_tail(c) in ("mkdir", "register_filelike", "get_sanitized_output_path"))
+            not cfg.reaches(q.node_for(ex, c), rn) for c in q.calls(ex) if attr_tail(c) in ("mkdir", "makedirs", "touch", "open") and c not in dest_mk)
         ok = ok or (asks and before_all)
     ctx.check(ok, rule, ex, ex.node, "_extract asks for the password before any output is touched",
               "extraction of an encrypted archive without a password raises PasswordRequired only when the first decoder is built - after the first member's file was opened "
